@@ -10,6 +10,7 @@ S="$(mktemp -d /tmp/seed-XXXXXX)"; trap 'rm -rf "$S"' EXIT
 rsync -a --exclude .git /repo/ "$S/"
 demo=$(ls "$D"/demo*_test.go "$D"/demo_test.go 2>/dev/null | head -1)
 pkg=""
+[ -n "${SKIP_CONFIRM:-}" ] && demo=""
 if [ -n "$demo" ]; then
   pkg=$(grep -m1 '^package ' "$demo" | awk '{print $2}' | sed 's/_test$//')
   case "$pkg" in xmssjs|dilithiumjs) pkg="qrllib-js/$pkg";; esac
@@ -22,7 +23,8 @@ if [ -n "$demo" ]; then
   if (cd "$S" && go test -vet=off -count=1 -run 'Demo' "./$pkg/" >"$S/.d1" 2>&1); then echo "demo-with-change: pass (NOT a valid seed?)"; else echo "demo-with-change: fail (as intended)"; fi
   rm -f "$S/$pkg/zz_demo_test.go"
 fi
-if (cd "$S" && go build ./... && go test -vet=off -count=1 ./... >"$S/.t" 2>&1); then echo "repo-tests-with-change: pass"; else echo "repo-tests-with-change: FAIL"; tail -5 "$S/.t"; fi
+if [ -n "${SKIP_CONFIRM:-}" ]; then (cd "$S" && go build ./...) || echo "MUTANT-DOES-NOT-BUILD"
+elif (cd "$S" && go build ./... && go test -vet=off -count=1 ./... >"$S/.t" 2>&1); then echo "repo-tests-with-change: pass"; else echo "repo-tests-with-change: FAIL"; tail -5 "$S/.t"; fi
 for ID in ${IDS//,/ }; do
   out="$(VERIF_REPO="$S" VERIF_EVIDENCE_DIR="$S/.evidence" VERIF_REPLAYS_DIR="$S/.replays" "$HERE/check" "$ID" "$TIER" 2>&1)"; r=$?
   echo "$ID exit=$r $(echo "$out" | grep -m2 -E '^  domain=|INFRA' | tr '\n' ' ' | cut -c1-300)"
